@@ -108,7 +108,7 @@ func (s *Server) Port() string {
 }
 
 func (s *Server) listenAndServe(addr string, handler http.Handler, context hap.Context) error {
-	server := http.Server{Addr: addr, Handler: handler, ConnState: connState}
+	server := http.Server{Addr: addr, Handler: handler, ConnState: connState, ConnContext: connContext}
 	return server.Serve(s)
 }
 
@@ -126,6 +126,11 @@ func connState(c net.Conn, state http.ConnState) {
 	case http.StateIdle:
 		con.SetBusy(false)
 	}
+}
+
+// connContext stores the connection in the context of the requests which arrive on it.
+func connContext(ctx context.Context, c net.Conn) context.Context {
+	return context.WithValue(ctx, hap.ConnContextKey, c)
 }
 
 func (s *Server) addrString() string {
